@@ -688,7 +688,13 @@ impl<'u> Tr<'u> {
                 self.block(rest, env, k)
             }
             Expr::If(_) | Expr::Match(_) => {
-                let has_ret = contains_return_expr(e) || (env.loop_body && contains_continue_expr(e));
+                // (a branch that sends an event is followed to the end of the closure like one that returns: the events
+                // are recorded per path)
+                let sends = match &env.events_enum {
+                    Some(en) => sent_event(&Stmt::Expr(e.clone(), None), en).is_some(),
+                    None => false,
+                };
+                let has_ret = contains_return_expr(e) || (env.loop_body && contains_continue_expr(e)) || sends;
                 let assigned: Vec<String> = {
                     let a = assigned_idents(e);
                     env.vars.iter().filter(|(r, _, _)| a.contains(r)).map(|(_, c, _)| c.clone()).collect()
